@@ -209,7 +209,10 @@ impl Prop for C17 {
       "run" => {
         let m: Machine = serde_json::from_value(case.input["machine"].clone()).unwrap();
         let n = case.input["n"].as_u64().unwrap();
-        let src = format!("{}\n#M({}u64)", m.source(""), n);
+        // invocation forms: a bare invocation, the value bound by a definition and read back, the declaration form
+        // `#inst := #M(..)` whose instance name is read back (all three evaluate to the terminal value)
+        let h = case.id.bytes().fold(0xcbf29ce484222325u64, |h, b| (h ^ b as u64).wrapping_mul(0x100000001b3));
+        let src = match h % 3 { 0 => format!("{}\n#M({}u64)", m.source(""), n), 1 => format!("{}\nres := #M({}u64)\nres", m.source(""), n), _ => format!("{}\n#inst := #M({}u64)\ninst", m.source(""), n) };
         let (res, ev) = traced(&src, None);
         let Some((visited, want)) = m.simulate(n, 100000) else { return Outcome::inconclusive("reference-did-not-terminate", src) };
         match &res {
